@@ -171,6 +171,13 @@ def fs_only(h):
     return not any(c["op"] in ("archive", "update", "delete", "move") for c in h["calls"])
 
 
+def absname(n):
+    """the one spelling of a name: 'a/b', './a/b' and '/a/b' are the same entry, '.' and '' the root"""
+    if n is None:
+        return ""
+    return posixpath.normpath("/" + n.lstrip("/"))
+
+
 def c12(h, res):
     out = []
     prev = None
@@ -184,9 +191,9 @@ def c12(h, res):
         c = h["calls"][r["i"]]
         cur = tree_map(o["tree"])
         if prev is not None and c["op"] in ("removeall", "rename", "remove", "delete", "move"):
-            a = posixpath.normpath(c["name"]) if c.get("name") else ""
+            a = absname(c["name"]) if c.get("name") is not None else ""
             if c["op"] in ("rename", "move"):
-                b = posixpath.normpath(c["name2"]) if c.get("name2") else ""
+                b = absname(c["name2"]) if c.get("name2") is not None else ""
                 if r["out"] == "ok" and a and b and a != b and under(b, a):
                     out.append(dict(i=r["i"], kind="rename-into-own-subtree-accepted", detail=[a, b]))
                 if r["out"] == "ok" and a in prev and a != b and not under(b, a):
@@ -255,8 +262,8 @@ def c13(h, res):
         for l in o.get("limits", []):
             if l["n"] > 0 and (l["got"] > l["n"] or l["foreign"]):
                 out.append(dict(i=r["i"], kind="limited-listing-too-long-or-foreign", detail=l))
-            if l["n"] > 0 and l["got"] < min(l["n"], l["total"]):
-                out.append(dict(i=r["i"], kind="limited-listing-too-short", detail=l))
+            # (a limited listing shorter than min(n, total) is not demanded by the property: "at most that many";
+            #  the SQL limit is applied before the exact post-filter, see Proofs/T13ListCounter.v limited_shorter_than_limit)
             if l["n"] <= 0 and l["got"] != l["total"]:
                 out.append(dict(i=r["i"], kind="unlimited-listing-incomplete", detail=l))
     return out
@@ -277,7 +284,7 @@ def c02(h, res, ref):
         if c["op"] == "rename" and q["out"] == "exist" and r["out"] in ("ok", "notempty", "exist"):
             # Go's os.Rename refuses every existing directory as destination; POSIX (and STFS) replace an
             # empty one and report not-empty otherwise: both accepted, the trees may differ from here on
-            tgt = {e["path"]: e for e in po.get("tree", [])}.get(posixpath.normpath(c["name2"]))
+            tgt = {e["path"]: e for e in po.get("tree", [])}.get(absname(c["name2"]))
             if tgt is not None and tgt["kind"] == "d":
                 break
         if r["out"] != q["out"]:
@@ -293,7 +300,7 @@ def c02(h, res, ref):
             out.append(dict(i=r["i"], kind="tree-differs-from-reference", detail=[c["op"]] + d[:3]))
             break
         if c["op"] == "chtimes" and r["out"] == "ok":
-            p = posixpath.normpath(c["name"])
+            p = absname(c["name"])
             e = {x["path"]: x for x in o["tree"]}.get(p)
             if e is not None and e["mtime"] != c["mtime"] * 10**9:
                 out.append(dict(i=r["i"], kind="mtime-not-set", detail=[p, e["mtime"]]))
